@@ -62,6 +62,7 @@ func c10RefUUID(name string) [16]byte {
 // c10Conn is a recording netmc.MinecraftConn. Methods that the exercised code
 // does not use stay nil (embedded interface) and would panic -> kit reports it.
 type c10Conn struct {
+	forge bool
 	netmc.MinecraftConn
 	ctx      context.Context
 	cancel   context.CancelFunc
@@ -79,11 +80,16 @@ func (c *c10Conn) Close() error {
 	c.cancel()
 	return nil
 }
-func (c *c10Conn) State() *state.Registry       { return c.st }
-func (c *c10Conn) Protocol() proto.Protocol     { return c.protocol }
-func (c *c10Conn) RemoteAddr() net.Addr         { return &net.TCPAddr{IP: net.IPv4(192, 0, 2, 7), Port: 50000} }
-func (c *c10Conn) LocalAddr() net.Addr          { return &net.TCPAddr{IP: net.IPv4(127, 0, 0, 1), Port: 25565} }
-func (c *c10Conn) Type() phase.ConnectionType   { return phase.Vanilla }
+func (c *c10Conn) State() *state.Registry   { return c.st }
+func (c *c10Conn) Protocol() proto.Protocol { return c.protocol }
+func (c *c10Conn) RemoteAddr() net.Addr     { return &net.TCPAddr{IP: net.IPv4(192, 0, 2, 7), Port: 50000} }
+func (c *c10Conn) LocalAddr() net.Addr      { return &net.TCPAddr{IP: net.IPv4(127, 0, 0, 1), Port: 25565} }
+func (c *c10Conn) Type() phase.ConnectionType {
+	if c.forge {
+		return phase.LegacyForge
+	}
+	return phase.Vanilla
+}
 func (c *c10Conn) SetType(phase.ConnectionType) {}
 func (c *c10Conn) ActiveSessionHandler() netmc.SessionHandler {
 	return c.handler
@@ -134,6 +140,10 @@ type c10LoginCase struct {
 	// field is mandatory from 1.20.2): nil = none, otherwise 16 bytes. A client may
 	// put any value there; an offline-mode identity never depends on it.
 	Holder []byte `json:"holder,omitempty"`
+	// Forge: a legacy Forge client (pre-1.13) behind legacy forwarding: the
+	// connection type adds a marker property to the profile before LoginSuccess;
+	// the identity (name, offline UUID) must come through that unchanged.
+	Forge bool `json:"forge,omitempty"`
 }
 
 var c10Auth = func() auth.Authenticator {
@@ -158,6 +168,10 @@ func c10LoginRun(c c10LoginCase) verifkit.Result {
 	cfg := config.DefaultConfig
 	cfg.OnlineMode = c.Online
 	cfg.Forwarding.Mode = config.NoneForwardingMode
+	forge := c.Forge && protocol.Lower(version.Minecraft_1_13)
+	if forge {
+		cfg.Forwarding.Mode = config.LegacyForwardingMode
+	}
 	cfg.Compression.Threshold = -1
 	cfg.ForceKeyAuthentication = false
 	deps := &sessionHandlerDeps{
@@ -168,7 +182,7 @@ func c10LoginRun(c c10LoginCase) verifkit.Result {
 	}
 	ctx, cancel := context.WithCancel(context.Background())
 	defer cancel()
-	conn := &c10Conn{ctx: ctx, cancel: cancel, protocol: protocol, st: state.Login}
+	conn := &c10Conn{ctx: ctx, cancel: cancel, protocol: protocol, st: state.Login, forge: forge}
 	inbound := newLoginInboundConn(newInitialInbound(conn, &net.TCPAddr{IP: net.IPv4(127, 0, 0, 1), Port: 25565}, packet.HandshakeIntent(2)))
 	h := newInitialLoginSessionHandler(conn, inbound, deps).(*initialLoginSessionHandler)
 
@@ -249,6 +263,29 @@ func c10LoginRun(c c10LoginCase) verifkit.Result {
 		return verifkit.Fail("offline-profile:mismatch", "username %q: offline profile %v, want name %q uuid %x", name, auth.profile, name, ref)
 	}
 
+	if forge {
+		// pre-1.20.2: Activated runs on into the play phase, for which this fixture has
+		// no servers; what matters here is written before that (LoginSuccess), so the
+		// rest may fail in whatever way it likes.
+		labels = append(labels, "legacy-forge-login-success-checked")
+		func() {
+			defer func() { _ = recover() }()
+			auth.Activated()
+		}()
+		var ls *packet.ServerLoginSuccess
+		for _, p := range conn.written {
+			if x, ok := p.(*packet.ServerLoginSuccess); ok && ls == nil {
+				ls = x
+			}
+		}
+		if ls == nil {
+			return verifkit.Fail("login-success:missing", "legacy Forge client %q protocol %d: no LoginSuccess written (written=%s closed=%d)", name, protocol, c10Types(conn.written), conn.closed)
+		}
+		if ls.Username != name || [16]byte(ls.UUID) != ref {
+			return verifkit.Fail("login-success:identity", "legacy Forge client %q behind legacy forwarding: LoginSuccess carries name %q uuid %s, want uuid %x", name, ls.Username, ls.UUID, ref)
+		}
+		return verifkit.Result{NonTrivial: true, Labels: labels}
+	}
 	if protocol.GreaterEqual(version.Minecraft_1_20_2) && protocol.Lower(version.Minecraft_26_2) {
 		labels = append(labels, "login-success-checked")
 		auth.Activated()
@@ -383,12 +420,13 @@ func c10GenUsername(t *rapid.T) []byte {
 
 func TestVerif_C10(t *testing.T) {
 	verifkit.Check(t, "C10", "login",
-		"usernames: valid names, valid alphabet at lengths 0/1/2/3/15/16/17/18/32, one substitution or insertion of a byte adjacent to the class boundaries / whitespace / NUL / newline / look-alike Unicode / invalid UTF-8, multi-line tricks, full-byte-alphabet and printable strings of 0..20; x 10 protocol versions 1.7.2..26.1 x profile id announced in the login start (none / random / a real online id / the offline id of another name; 1.19.1+); the real handleServerLogin (offline mode in 2/3 of the cases, online mode in 1/3: accepted = exactly one EncryptionRequest and the connection open; forwarding none) must accept iff 2..16 bytes of [A-Za-z0-9_]; the offline profile, and for >=1.20.2 the LoginSuccess packet and the registered player identity, must carry the reference MD5 v3 UUID and the unchanged name; non-trivial = name within one edit of the accept boundary",
+		"usernames: valid names, valid alphabet at lengths 0/1/2/3/15/16/17/18/32, one substitution or insertion of a byte adjacent to the class boundaries / whitespace / NUL / newline / look-alike Unicode / invalid UTF-8, multi-line tricks, full-byte-alphabet and printable strings of 0..20; x 10 protocol versions 1.7.2..26.1 x legacy Forge connection type behind legacy forwarding for pre-1.13 clients (a quarter; LoginSuccess identity checked) x profile id announced in the login start (none / random / a real online id / the offline id of another name; 1.19.1+); the real handleServerLogin (offline mode in 2/3 of the cases, online mode in 1/3: accepted = exactly one EncryptionRequest and the connection open; forwarding none) must accept iff 2..16 bytes of [A-Za-z0-9_]; the offline profile, and for >=1.20.2 the LoginSuccess packet and the registered player identity, must carry the reference MD5 v3 UUID and the unchanged name; non-trivial = name within one edit of the accept boundary",
 		func(t *rapid.T) c10LoginCase {
 			return c10LoginCase{
 				Username: c10GenUsername(t),
 				Protocol: int(rapid.SampledFrom(c10Protocols).Draw(t, "protocol")),
 				Online:   rapid.IntRange(0, 2).Draw(t, "online") == 0,
+				Forge:    rapid.IntRange(0, 3).Draw(t, "forge") == 0,
 				Holder: rapid.OneOf(
 					rapid.Just([]byte(nil)),
 					rapid.SliceOfN(rapid.Byte(), 16, 16),
